@@ -44,8 +44,6 @@ COARSE_BENIGN = {
     "typelib.py.inspection.origin": "result is a class / special form; for ClassVar[...] only the single argument is read",
     "typelib.py.inspection.resolve_supertype": "identity on everything but NewType; unions of equal members are returned as an equal object whose order is not read by callers (they call args() on their own argument)",
     "typelib.py.inspection.normalize_typevar": "TypeVars compare by identity",
-    "typelib.py.inspection.name": "string of the origin's name; no member order involved",
-    "typelib.py.inspection.qualname": "string form is only used for names of classes/forward refs, cut at '['",
     "typelib.py.inspection.safe_get_params": "keyed by class; signatures are order-preserving per class object",
     "typelib.py.inspection.isstdlibtype": "boolean; order-insensitive all() over members",
     "typelib.py.inspection.isoptionaltype": "boolean",
@@ -371,6 +369,9 @@ def r12_3(prog: Program, rep: Report):
                     reasons.append(f"renders {cp} (an aware temporal compares by instant, not by offset)")
             for ap in annot_params:
                 x = ("param", ap)
+                # an annotation's *text* is spelling: Optional[X] == X | None and Union[A, B] == Union[B, A] print differently
+                if T.contains(r, lambda s: T.is_call_to(s, "builtins.str", "builtins.repr") and s[2] == (x,)) or any(T.contains(g, lambda s: T.is_call_to(s, "builtins.str", "builtins.repr") and s[2] == (x,)) for g, _ in p.guards()):
+                    reasons.append(f"derives its answer from the text of {ap} (equal annotations print differently: Optional[X] == X | None, Union[A, B] == Union[B, A])")
                 if r == x:
                     reasons.append(f"returns {ap} itself (equal annotations are distinct objects: union member order is not part of ==)")
                 if T.contains(r, lambda s: (T.is_call_to(s, f"{C.INSP}.args", "typing.get_args") and s[2][:1] == (x,)) or s == ("attr", x, "__args__")):
